@@ -3,43 +3,109 @@
 import json
 import subprocess
 
-HOOK_COMMITS = ["541dbbc"]
+FAM_NOTE = ("Trusted: TLC and the community modules, the projector (harness/src/proj.rs), tokio's paused clock; assumptions A1 (timers are serviced before the "
+            "next deadline) and A2 (local steps are urgent), timeouts >= 1 s, segment size >= 16 bytes. Bounds per configuration in spec/mc/configs.json "
+            "(files of 0-5 units, <= 1 link fault quick / 2-3 thorough, limit 2-3); Level D fault plans from FaultPlans.tla (F = 1 quick / 2 thorough).")
+
+FAM_TECH = ("explicit TLA+ model Cfdp.tla (Sender + Receiver + link + clock + users) model-checked by TLC with the property monitor Props.tla; every edge of the bounded "
+            "state graph replayed on the real transaction objects (Level T) and TLC-enumerated fault plans run on real Daemons (Level D); every recorded step "
+            "validated by TLC (CfdpTrace.tla: property monitor + conformance with the model)")
+
+FAM_TAIL = (" The verdict is TLC's evaluation of the Props.tla predicates on events recorded from the real code; TLC evaluates the same predicates on every step of "
+            "the exhaustively explored model, and CfdpTrace.tla compares every real step with the model's prediction, so the exhaustive result transfers wherever "
+            "no DRIFT is reported.")
+
+
+def fam(what, ref):
+    return dict(engine="tlc-cfdp", category="model_checking", technique=FAM_TECH, text=what + FAM_TAIL, design_ref=ref, note=FAM_NOTE)
+
 
 CHECKS = {
+    "C01": fam("Monitor tag C01:DeliveredIsSource: whenever either user sees Finished(NoError, Complete, Retained) the destination file read back by the projector equals "
+               "the source, under every interleaving of sender, receiver, link faults and ticks of the bounded configurations (both modes, closure, immediate/deferred NAK, "
+               "delay, Null checksum, checksum-neutral content, byte-granular ragged sizes). One recorded finding (unacknowledged mode) is reported as KNOWN-FINDING.", "DESIGN.md 6.1"),
+    "C02": fam("Monitor tag C02:RecoversOK: when both transactions have ended and fewer link faults than the limit occurred (no cancel, no long suspension) both users saw "
+               "a successful delivery and the file equals the source; that the end is reached is C03's bound.", "DESIGN.md 6.2"),
+    "C03": fam("Monitor tags C03:IdleBound (a live, non-excused entity is never idle longer than the bound fixed by its timeouts and limit since the last PDU delivered to it; "
+               "blackouts of either direction at every point) and C03:NoSpin (a timeout handler never leaves the loop's sleep at zero).", "DESIGN.md 6.3"),
+    "C04": fam("Monitor tags C04:FileChanged / RequestsRedone / IntegrityFaultAfterDelivery / SenderSuccessWithoutDelivery after the receiver's first success indication, "
+               "under duplication, reordering and delay of every PDU, including non-idempotent filestore requests.", "DESIGN.md 6.4"),
+    "C07": fam("Monitor tags C07:Header / DataContent / UnsolicitedData / MetadataWrong / EofWrong / EofBeforeData over every PDU the sender hands to the transport (bytes "
+               "compared with the source by the projector; every data PDU is the next first-pass tile or a pending NAK piece), including adversarial NAK lists "
+               "(overlapping, empty, inverted, beyond EOF).", "DESIGN.md 6.7"),
+    "C08": fam("Monitor tags C08:NakWellFormed / DeferredQuiet / NakCoversMissing / NakAsksForHeld over every NAK the receiver emits, against the set of bytes the link "
+               "actually delivered to it.", "DESIGN.md 6.8"),
     "C09": dict(
-        engine="tlc-segments",
-        category="model_checking",
+        engine="tlc-segments", category="model_checking",
         technique="TLA+ spec Segments.tla model-checked by TLC; its complete state graph replayed path-by-path into the real Segments object",
-        text="Segments.tla specifies the bookkeeping as 'set of byte positions'; TLC checks the laws of the operators (progress = cardinality, "
-             "completeness, gaps = maximal uncovered runs) and emits the complete reachable graph for a universe of M positions; every path of the graph up to "
-             "a depth is executed on the real Segments and every return value (merge, is_complete for every n, gaps for every window, stored ranges) compared, "
-             "also under stretched coordinate maps reaching 2^64-1. Bounded-exhaustive refinement check of the real structure.",
-        design_ref="DESIGN.md 6.9",
-        note="Trusted: TLC, the TLA+ value parser, the coordinate map of the harness. Bounds: M=6/depth 4 (quick), M=8/depth 5 (thorough).",
-    ),
+        text="Segments.tla specifies the bookkeeping as 'set of byte positions'; TLC checks the laws of the operators (progress = cardinality, completeness, gaps = maximal "
+             "uncovered runs) and emits the complete reachable graph for a universe of M positions; every path of the graph up to a depth is executed on the real Segments "
+             "and every return value (merge, is_complete for every n, gaps for every window, stored ranges) compared, also under stretched coordinate maps reaching 2^64-1. "
+             "Bounded-exhaustive refinement check of the real structure.",
+        design_ref="DESIGN.md 6.9", note="Trusted: TLC, the TLA+ value parser, the coordinate map of the harness. Bounds: M=6/depth 4 (quick), M=8/depth 5 (thorough)."),
+    "C10": fam("Monitor tags C10:NoPartialFile / CancelEnds / CancelReported with a user cancel at either entity at every point, single losses and blackouts, both modes, "
+               "closure on/off.", "DESIGN.md 6.10"),
+    "C11": dict(
+        engine="tlc-daemon", category="model_checking",
+        technique="TLA+ spec Daemon.tla model-checked by TLC; hook events of 2-3 real Daemons validated by TLC (DaemonTrace.tla: routing conformance + C11 predicates) and every "
+                  "transaction by CfdpTrace.tla",
+        text="Daemon.tla: sequence numbers, routing by (source, seq), spawning / reaping; TLC checks IdsDistinct, DaemonAlive, RoutingSafe, NoSendFromStray under arbitrary "
+             "stray headers. Real daemons on one paused runtime run overlapping transfers in both directions and mixed modes with seeded faults and stray / replayed PDUs; "
+             "DaemonTrace.tla judges ids, daemon survival, termination of every task (also stray-started ones) and compares every routing decision with Daemon!Route; per "
+             "transaction the C01/C02/C04 predicates of the monitor decide 'own file, own outcome'.",
+        design_ref="DESIGN.md 6.11", note="Seeded random scenarios (not exhaustive) at the daemon level; in-memory transport; one runtime thread."),
+    "C12": dict(
+        engine="tlc-filestore", category="model_checking",
+        technique="TLA+ spec Paths.tla (name resolution below the root) model-checked by TLC; every name of its graph walked through get_native_path and every filestore "
+                  "operation in a sentinel jail",
+        text="TLC checks Contained for every name = start (relative, absolute, root-prefixed, sibling-prefixed) + up to L components over {a, b, '.', '..', ''}; the harness "
+             "walks all of them in several spellings through the real get_native_path and 14 groups of operations inside a jail; VIOLATION = native path outside the root or "
+             "anything outside the root created, changed, deleted or opened.",
+        design_ref="DESIGN.md 6.12", note="The jail lives 8 directories deep inside /verif/.work so that an escaping name cannot damage anything; no symlinks."),
+    "C13": dict(
+        engine="tlc-filestore", category="model_checking",
+        technique="TLA+ spec Filestore.tla model-checked by TLC; its labelled state graph walked on a real NativeFileStore; end-to-end part through Cfdp.tla / Props.tla "
+                  "(C13 tags) at Level T and D",
+        text="Part 1: Filestore.tla defines status and effect of the nine requests as a function of the filesystem state; TLC checks FailureChangesNothing and FailTheRest and "
+             "prints the graph of all request sequences up to a depth over {2 files, a directory with an entry, free names}; every sequence is executed on a real temp tree, "
+             "status octet and whole tree compared. Part 2: tags C13:RequestsOutsideDelivery / ResponsesDiffer of the transaction monitor (requests run once, only at the "
+             "successful delivery, same responses at both users and in the Finished PDU).",
+        design_ref="DESIGN.md 6.13", note="Status codes follow the code base and its own tests (Deny of a missing name = NotAllowed). Local POSIX filesystem without permission faults."),
     "C14": dict(
-        engine="tlc-small",
-        category="model_checking",
-        technique="TLA+ spec Checksum.tla (definition vs chunk-fed accumulator) model-checked by TLC; every chunking replayed through the real checksum(); recorded results validated by TLC (ChecksumTrace.tla)",
-        text="TLC proves, for every length <= N and every chunking into reads of 1..K bytes, that the carried-remainder accumulator equals the definition Sum; the (length, position, chunk) "
-             "graph it prints is walked on the real FileChecksum::checksum behind a scripted Read+Seek (every composition, pattern and seeded random content, displaced cursors, lengths "
-             "straddling 8 KiB); every distinct (content, result) pair recorded from the code is judged by TLC against Sum. Null must be 0.",
-        design_ref="DESIGN.md 6.14",
-        note="Trusted: TLC's evaluation of Sum (two 16-bit lanes), the scripted reader. Contents beyond the enumerated lengths are sampled (seeded), not exhausted.",
-    ),
+        engine="tlc-small", category="model_checking",
+        technique="TLA+ spec Checksum.tla (definition vs chunk-fed accumulator) model-checked by TLC; every chunking replayed through the real checksum(); recorded results "
+                  "validated by TLC (ChecksumTrace.tla)",
+        text="TLC proves, for every length <= N and every chunking into reads of 1..K bytes, that the carried-remainder accumulator equals the definition Sum; the (length, "
+             "position, chunk) graph it prints is walked on the real FileChecksum::checksum behind a scripted Read+Seek (every composition, pattern and seeded random content, "
+             "displaced cursors, lengths straddling 8 KiB); every distinct (content, result) pair recorded from the code is judged by TLC against Sum. Null must be 0.",
+        design_ref="DESIGN.md 6.14", note="Trusted: TLC's evaluation of Sum (two 16-bit lanes), the scripted reader. Contents beyond the enumerated lengths are sampled (seeded)."),
     "C16": dict(
-        engine="tlc-small",
-        category="model_checking",
+        engine="tlc-small", category="model_checking",
         technique="TLA+ spec Transport.tla (reused receive buffer with tagged cells) model-checked by TLC; every behaviour replayed over a real UdpTransport on loopback",
-        text="TLC checks NoStaleBytes/TruncatedRejected/CompleteAccepted for the decode-own-bytes design over the real encoded lengths of a corpus of every PDU kind (CRC on/off) and refutes "
-             "them for the decode-whole-buffer design (non-vacuity); every behaviour (complete datagram, then every truncation of every datagram) is sent over 127.0.0.1 to a real "
-             "UdpTransport and the outcome of receive() compared with the model's.",
-        design_ref="DESIGN.md 6.16",
-        note="Trusted: loopback UDP ordering; corpus of 20 datagrams; depth 2 (quick) / 3 on a sub-corpus (thorough).",
-    ),
+        text="TLC checks NoStaleBytes / TruncatedRejected / CompleteAccepted for the decode-own-bytes design over the real encoded lengths of a corpus of every PDU kind (CRC "
+             "on/off) and refutes them for the decode-whole-buffer design (non-vacuity); every behaviour (complete datagram, then every truncation of every datagram) is sent "
+             "over 127.0.0.1 to a real UdpTransport and the outcome of receive() compared with the model's.",
+        design_ref="DESIGN.md 6.16", note="Trusted: loopback UDP ordering; corpus of 20 datagrams; depth 2 (quick) / 3 on a sub-corpus (thorough)."),
+    "C17": fam("Monitor tags C17:FaultExact (a limit fault only after `limit` transmissions spaced by at least the timeout, counts reset by progress) and "
+               "C17:HandlerAsConfigured (ignore / suspend / abandon / cancel), over timeout grids, blackouts and every handler map.", "DESIGN.md 6.17"),
+    "C18": fam("Monitor tags C18:OneWay / EndsOnEof / ClosureFinished / ClosureTruthful / ClosureSenderWaits / ClosureReported / IncompleteNotComplete in unacknowledged mode "
+               "with closure on/off. One recorded finding (the unacknowledged receiver has no completeness test) is reported as KNOWN-FINDING.", "DESIGN.md 6.18"),
+    "C19": fam("Monitor tags C19:QuietWhileSuspended / NoFaultWhileSuspended with suspend and resume at either entity at every point; completion after resume through "
+               "C02:RecoversOK.", "DESIGN.md 6.19"),
+    "C20": fam("Monitor tags C20:ReceiverProgress (= number of distinct bytes the link delivered) / SenderProgress (= highest first-pass offset emitted) on KeepAlive PDUs "
+               "and Fault / Resumed / Abandon indications, with prompts and suspend/resume at every point.", "DESIGN.md 6.20"),
 }
 
-NOT_YET = {}
+NOT_YET = {
+    "C05": "codec round trip: the TLA+ wire-layout specification and its binding are still under construction in this session; not claimed yet",
+    "C06": "decoder totality / canonicality: the TLA+ decoder-arithmetic specification and its binding are still under construction; not claimed yet",
+    "C15": "CRC rejection: the TLA+ CRC specification and its binding are still under construction; not claimed yet",
+}
+
+
+def hook_commits():
+    out = subprocess.check_output(["git", "-C", "/repo", "log", "--format=%h %s"]).decode().splitlines()
+    return [l.split()[0] for l in out if "verif hooks" in l][::-1]
 
 
 def main():
@@ -62,7 +128,7 @@ def main():
                 "technique": c["technique"],
             })
         else:
-            na.append({"property_id": pid, "reason": NOT_YET.get(pid, "check under construction in this session: not claimed until its TLA+ model and conformance harness are committed")})
+            na.append({"property_id": pid, "reason": NOT_YET[pid]})
     engines = {}
     for pid, c in CHECKS.items():
         engines.setdefault(c["engine"], []).append(pid)
@@ -73,18 +139,20 @@ def main():
             "guard": "cfdp_verif",
             "enable": "RUSTFLAGS='--cfg cfdp_verif --cfg tokio_unstable' (set in /verif/harness/.cargo/config.toml; the harness depends on /repo/cfdp-core and /repo/cfdp-daemon by path)",
             "baseline_off_cmd": "cd /repo && cargo test --workspace --no-fail-fast --offline",
-            "source_commits": HOOK_COMMITS,
+            "source_commits": hook_commits(),
             "add_only": False,
         },
         "engines": [{"name": k, "path": "/verif/spec", "serves_properties": sorted(v),
-                     "kind_free_text": "explicit TLA+ specification checked with TLC, bound to the Rust code by replay / trace validation"} for k, v in sorted(engines.items())],
+                     "kind_free_text": "explicit TLA+ specification checked with TLC, bound to the Rust code by replay of TLC-generated behaviours and by TLC trace validation"} for k, v in sorted(engines.items())],
         "checks": checks,
         "not_applicable": na,
-        "notes": "hooks.add_only=false: one `use` line of timer.rs and one match arm of lib.rs were rewritten under the guard; everything else is added code.",
+        "notes": "hooks.add_only=false: one `use` line of timer.rs and one match arm of lib.rs were rewritten under the guard; everything else in the hook commits is added "
+                 "code behind #[cfg(cfdp_verif)] (plus a [lints] entry in cfdp-daemon/Cargo.toml declaring the cfg). Genuine defects repaired as `fix:` commits in /repo are "
+                 "listed in /verif/known_findings.json.",
     }
     with open("/verif/MANIFEST.json", "w") as f:
         json.dump(m, f, indent=1)
-    print("MANIFEST: %d checks, %d not_applicable" % (len(checks), len(na)))
+    print("MANIFEST: %d checks, %d not_applicable, hooks %s" % (len(checks), len(na), m["hooks"]["source_commits"]))
 
 
 if __name__ == "__main__":
